@@ -361,9 +361,12 @@ func (sm *SeatManager) nextDealer() *Seat {
 	}
 
 	// Try again. It should get a new dealer as long as more than one players out there
-	sm.dealer, _ = sm.findActivePlayer(seats)
+	dealer, _ = sm.findActivePlayer(seats)
+	if dealer != nil {
+		sm.dealer = dealer
+	}
 
-	return sm.dealer
+	return dealer
 }
 
 func (sm *SeatManager) renewNonEmptySeats() {
